@@ -254,7 +254,9 @@ fn run_task(spec: &Arc<SeqSpec>, shm: &Arc<Shm>, prefix: Vec<usize>) {
         for op in spec.setup.iter() {
             if let Err(v) = w.apply(op) {
                 if prefix2.iter().all(|&x| x == 0) {
-                    record(shm, spec, &path, &format!("setup.{}", v.clause), &v.detail);
+                    // a violation met while building the family's start state is a violation like
+                    // any other (empty path: the replay re-executes the setup and meets it again)
+                    record(shm, spec, &path, &v.clause, &format!("while building the family's start state: {}", v.detail));
                 }
                 return;
             }
